@@ -172,7 +172,7 @@ func (w *c09World) poolArgs() [][]byte {
 	return out
 }
 
-func sp(s string) *string { return &s }
+func c09sp(s string) *string { return &s }
 
 type c09Step struct {
 	P   string `json:"p"`   // "same": the shared provider, cleared and refilled; "new": a new provider object
@@ -221,18 +221,18 @@ func newC09Room(ver gmsl.RoomVersion) *c09Room {
 	r := &c09Room{w: w, jrs: map[string]int{}, members: map[string]int{}}
 	priv := w.impl.PrivilegedCreators()
 	cc := map[string]interface{}{"creator": uAlice, "room_version": string(ver)}
-	c0 := w.mk(spec.MRoomCreate, uAlice, sp(""), cc, nil)
+	c0 := w.mk(spec.MRoomCreate, uAlice, c09sp(""), cc, nil)
 	if w.domainless {
 		w.roomID = "!" + w.pool[c0].id[1:]
 	}
 	r.creates = append(r.creates, c0)
 	// same room, different create event (not federatable): in domainless versions it is necessarily
 	// another room, which is one of the shapes wanted
-	r.creates = append(r.creates, w.mk(spec.MRoomCreate, uAlice, sp(""), map[string]interface{}{"creator": uAlice, "room_version": string(ver), "m.federate": false}, nil))
+	r.creates = append(r.creates, w.mk(spec.MRoomCreate, uAlice, c09sp(""), map[string]interface{}{"creator": uAlice, "room_version": string(ver), "m.federate": false}, nil))
 	// created by bob
-	r.creates = append(r.creates, w.mk(spec.MRoomCreate, uBob, sp(""), map[string]interface{}{"creator": uBob, "room_version": string(ver), "additional_creators": []string{uHeidi}}, nil))
+	r.creates = append(r.creates, w.mk(spec.MRoomCreate, uBob, c09sp(""), map[string]interface{}{"creator": uBob, "room_version": string(ver), "additional_creators": []string{uHeidi}}, nil))
 	// content that does not parse as create content
-	r.creates = append(r.creates, w.mk(spec.MRoomCreate, uAlice, sp(""), map[string]interface{}{"creator": 5, "m.federate": "x"}, nil))
+	r.creates = append(r.creates, w.mk(spec.MRoomCreate, uAlice, c09sp(""), map[string]interface{}{"creator": 5, "m.federate": "x"}, nil))
 	r.creates = append(r.creates, w.dup(c0))
 
 	users := map[string]interface{}{uBob: 50}
@@ -241,12 +241,12 @@ func newC09Room(ver gmsl.RoomVersion) *c09Room {
 		users[uAlice] = 100
 		users2[uAlice] = 100
 	}
-	p0 := w.mk(spec.MRoomPowerLevels, uAlice, sp(""), map[string]interface{}{"users": users, "invite": 50, "ban": 50, "kick": 50, "redact": 50,
+	p0 := w.mk(spec.MRoomPowerLevels, uAlice, c09sp(""), map[string]interface{}{"users": users, "invite": 50, "ban": 50, "kick": 50, "redact": 50,
 		"events_default": 0, "state_default": 50, "users_default": 0}, nil)
 	r.pls = append(r.pls, p0)
-	r.pls = append(r.pls, w.mk(spec.MRoomPowerLevels, uAlice, sp(""), map[string]interface{}{"users": users2, "invite": 0, "ban": 100, "kick": 100, "redact": 0,
+	r.pls = append(r.pls, w.mk(spec.MRoomPowerLevels, uAlice, c09sp(""), map[string]interface{}{"users": users2, "invite": 0, "ban": 100, "kick": 100, "redact": 0,
 		"events_default": 50, "state_default": 0, "users_default": 0}, nil))
-	r.pls = append(r.pls, w.mk(spec.MRoomPowerLevels, uAlice, sp(""), map[string]interface{}{"users": "oops"}, nil))
+	r.pls = append(r.pls, w.mk(spec.MRoomPowerLevels, uAlice, c09sp(""), map[string]interface{}{"users": "oops"}, nil))
 	r.pls = append(r.pls, w.dup(p0))
 
 	for _, rule := range c09Rules {
@@ -254,12 +254,12 @@ func newC09Room(ver gmsl.RoomVersion) *c09Room {
 		if strings.Contains(rule, "restricted") {
 			c["allow"] = []interface{}{map[string]string{"type": "m.room_membership", "room_id": "!other:a"}}
 		}
-		r.jrs[rule] = w.mk(spec.MRoomJoinRules, uAlice, sp(""), c, nil)
+		r.jrs[rule] = w.mk(spec.MRoomJoinRules, uAlice, c09sp(""), c, nil)
 	}
-	r.jrBad = w.mk(spec.MRoomJoinRules, uAlice, sp(""), map[string]interface{}{"join_rule": 5}, nil)
+	r.jrBad = w.mk(spec.MRoomJoinRules, uAlice, c09sp(""), map[string]interface{}{"join_rule": 5}, nil)
 
 	mem := func(target, sender, membership string, prev []string) int {
-		return w.mk(spec.MRoomMember, sender, sp(target), map[string]interface{}{"membership": membership}, prev)
+		return w.mk(spec.MRoomMember, sender, c09sp(target), map[string]interface{}{"membership": membership}, prev)
 	}
 	r.members[uAlice] = mem(uAlice, uAlice, "join", []string{w.pool[c0].id})
 	r.members[uBob] = mem(uBob, uBob, "join", nil)
@@ -270,25 +270,25 @@ func newC09Room(ver gmsl.RoomVersion) *c09Room {
 	r.members[uHeidi] = mem(uHeidi, uHeidi, "join", nil)
 
 	pub := ed25519.PublicKey(c09SignKey[32:])
-	r.tpi = w.mk(spec.MRoomThirdPartyInvite, uBob, sp("tok"), map[string]interface{}{"display_name": "x", "key_validity_url": "https://id/valid",
+	r.tpi = w.mk(spec.MRoomThirdPartyInvite, uBob, c09sp("tok"), map[string]interface{}{"display_name": "x", "key_validity_url": "https://id/valid",
 		"public_key":  spec.Base64Bytes(pub),
 		"public_keys": []interface{}{map[string]interface{}{"public_key": spec.Base64Bytes(pub), "key_validity_url": "https://id/valid"}}}, nil)
 
 	// un-needed state of the same room
-	r.extras = append(r.extras, w.mk(spec.MRoomThirdPartyInvite, uBob, sp(""), map[string]interface{}{"display_name": "x", "key_validity_url": "https://id/valid",
+	r.extras = append(r.extras, w.mk(spec.MRoomThirdPartyInvite, uBob, c09sp(""), map[string]interface{}{"display_name": "x", "key_validity_url": "https://id/valid",
 		"public_key":  spec.Base64Bytes(pub),
 		"public_keys": []interface{}{map[string]interface{}{"public_key": spec.Base64Bytes(pub), "key_validity_url": "https://id/valid"}}}, nil))
-	r.extras = append(r.extras, w.mk("m.room.topic", uAlice, sp(""), map[string]string{"topic": "t"}, nil))
-	r.extras = append(r.extras, w.mk("m.room.name", uAlice, sp(""), map[string]string{"name": "n"}, nil))
-	r.extras = append(r.extras, w.mk("m.room.history_visibility", uAlice, sp(""), map[string]string{"history_visibility": "shared"}, nil))
-	r.extras = append(r.extras, w.mk(spec.MRoomMember, "@zed:z", sp("@zed:z"), map[string]string{"membership": "join"}, nil))
-	r.extras = append(r.extras, w.mk(spec.MRoomMember, "@yan:y", sp("@yan:y"), map[string]string{"membership": "ban"}, nil))
-	r.extras = append(r.extras, w.mk(spec.MRoomThirdPartyInvite, uBob, sp("othertok"), map[string]string{"display_name": "y"}, nil))
-	r.extras = append(r.extras, w.mk("m.room.aliases", uBob, sp("b"), map[string]interface{}{"aliases": []string{}}, nil))
+	r.extras = append(r.extras, w.mk("m.room.topic", uAlice, c09sp(""), map[string]string{"topic": "t"}, nil))
+	r.extras = append(r.extras, w.mk("m.room.name", uAlice, c09sp(""), map[string]string{"name": "n"}, nil))
+	r.extras = append(r.extras, w.mk("m.room.history_visibility", uAlice, c09sp(""), map[string]string{"history_visibility": "shared"}, nil))
+	r.extras = append(r.extras, w.mk(spec.MRoomMember, "@zed:z", c09sp("@zed:z"), map[string]string{"membership": "join"}, nil))
+	r.extras = append(r.extras, w.mk(spec.MRoomMember, "@yan:y", c09sp("@yan:y"), map[string]string{"membership": "ban"}, nil))
+	r.extras = append(r.extras, w.mk(spec.MRoomThirdPartyInvite, uBob, c09sp("othertok"), map[string]string{"display_name": "y"}, nil))
+	r.extras = append(r.extras, w.mk("m.room.aliases", uBob, c09sp("b"), map[string]interface{}{"aliases": []string{}}, nil))
 
 	cand := func(name string, ev int) { r.cands = append(r.cands, c09Cand{name, ev}) }
 	member := func(name, target, sender string, content map[string]interface{}, prev []string) {
-		cand(name, w.mk(spec.MRoomMember, sender, sp(target), content, prev))
+		cand(name, w.mk(spec.MRoomMember, sender, c09sp(target), content, prev))
 	}
 	j := func(via string) map[string]interface{} {
 		m := map[string]interface{}{"membership": "join"}
@@ -358,23 +358,23 @@ func newC09Room(ver gmsl.RoomVersion) *c09Room {
 	cand("msg-heidi", w.mk("m.room.message", uHeidi, nil, map[string]string{"body": "hi"}, nil))
 	cand("msg-grace", w.mk("m.room.message", uGrace, nil, map[string]string{"body": "hi"}, nil))
 	cand("msg-alice", w.mk("m.room.message", uAlice, nil, map[string]string{"body": "hi"}, nil))
-	cand("topic-bob", w.mk("m.room.topic", uBob, sp(""), map[string]string{"topic": "x"}, nil))
-	cand("topic-heidi", w.mk("m.room.topic", uHeidi, sp(""), map[string]string{"topic": "x"}, nil))
-	cand("state-own-key-heidi", w.mk("org.example.st", uHeidi, sp(uHeidi), map[string]string{}, nil))
-	cand("state-other-key-bob", w.mk("org.example.st", uBob, sp(uHeidi), map[string]string{}, nil))
-	cand("pl-by-alice", w.mk(spec.MRoomPowerLevels, uAlice, sp(""), map[string]interface{}{"users": users, "invite": 0, "ban": 50, "kick": 50, "redact": 50,
+	cand("topic-bob", w.mk("m.room.topic", uBob, c09sp(""), map[string]string{"topic": "x"}, nil))
+	cand("topic-heidi", w.mk("m.room.topic", uHeidi, c09sp(""), map[string]string{"topic": "x"}, nil))
+	cand("state-own-key-heidi", w.mk("org.example.st", uHeidi, c09sp(uHeidi), map[string]string{}, nil))
+	cand("state-other-key-bob", w.mk("org.example.st", uBob, c09sp(uHeidi), map[string]string{}, nil))
+	cand("pl-by-alice", w.mk(spec.MRoomPowerLevels, uAlice, c09sp(""), map[string]interface{}{"users": users, "invite": 0, "ban": 50, "kick": 50, "redact": 50,
 		"events_default": 0, "state_default": 50, "users_default": 0}, nil))
-	cand("pl-by-bob", w.mk(spec.MRoomPowerLevels, uBob, sp(""), map[string]interface{}{"users": users, "invite": 50, "ban": 50, "kick": 50, "redact": 50,
+	cand("pl-by-bob", w.mk(spec.MRoomPowerLevels, uBob, c09sp(""), map[string]interface{}{"users": users, "invite": 50, "ban": 50, "kick": 50, "redact": 50,
 		"events_default": 10, "state_default": 50, "users_default": 0}, nil))
-	cand("jr-by-alice", w.mk(spec.MRoomJoinRules, uAlice, sp(""), map[string]string{"join_rule": "public"}, nil))
-	cand("jr-by-heidi", w.mk(spec.MRoomJoinRules, uHeidi, sp(""), map[string]string{"join_rule": "public"}, nil))
-	cand("3pi-event-by-bob", w.mk(spec.MRoomThirdPartyInvite, uBob, sp("tok2"), map[string]string{"display_name": "z"}, nil))
-	cand("3pi-event-by-heidi", w.mk(spec.MRoomThirdPartyInvite, uHeidi, sp("tok2"), map[string]string{"display_name": "z"}, nil))
-	cand("aliases-bob", w.mk("m.room.aliases", uBob, sp("b"), map[string]interface{}{"aliases": []string{"#x:b"}}, nil))
-	cand("aliases-bob-wrong-key", w.mk("m.room.aliases", uBob, sp("c"), map[string]interface{}{"aliases": []string{"#x:b"}}, nil))
+	cand("jr-by-alice", w.mk(spec.MRoomJoinRules, uAlice, c09sp(""), map[string]string{"join_rule": "public"}, nil))
+	cand("jr-by-heidi", w.mk(spec.MRoomJoinRules, uHeidi, c09sp(""), map[string]string{"join_rule": "public"}, nil))
+	cand("3pi-event-by-bob", w.mk(spec.MRoomThirdPartyInvite, uBob, c09sp("tok2"), map[string]string{"display_name": "z"}, nil))
+	cand("3pi-event-by-heidi", w.mk(spec.MRoomThirdPartyInvite, uHeidi, c09sp("tok2"), map[string]string{"display_name": "z"}, nil))
+	cand("aliases-bob", w.mk("m.room.aliases", uBob, c09sp("b"), map[string]interface{}{"aliases": []string{"#x:b"}}, nil))
+	cand("aliases-bob-wrong-key", w.mk("m.room.aliases", uBob, c09sp("c"), map[string]interface{}{"aliases": []string{"#x:b"}}, nil))
 	red := w.mk("m.room.redaction", uHeidi, nil, map[string]string{"redacts": "$someone:b"}, nil)
 	cand("redaction-heidi", red)
-	cand("create-again", w.mk(spec.MRoomCreate, uAlice, sp(""), cc, nil))
+	cand("create-again", w.mk(spec.MRoomCreate, uAlice, c09sp(""), cc, nil))
 	return r
 }
 
@@ -522,8 +522,24 @@ func (r *c09Room) emitSequence(c *Ctx, steps []c09Step, desc string) {
 		}
 	}
 	sj, _ := json.Marshal(out)
-	args := append([][]byte{B(string(r.w.ver)), sj}, used...)
-	c.Run("C09.sequence", args, "", "C09.prop.reuse_transparent", desc)
+	// per pool event: the (key, server, key id) triples that verify its third-party-invite
+	// signature against the keys of the third_party_invite events it is checked with
+	tables := make([]json.RawMessage, len(used))
+	for i := range tables {
+		tables[i] = json.RawMessage("[]")
+	}
+	for _, st := range out {
+		auths := make([][]byte, len(st.Set))
+		for j, k := range st.Set {
+			auths[j] = used[k]
+		}
+		if t := c07SigTable(used[st.Ev], auths); string(t) != "[]" {
+			tables[st.Ev] = json.RawMessage(t)
+		}
+	}
+	tj, _ := json.Marshal(tables)
+	args := append([][]byte{B(string(r.w.ver)), sj, tj}, used...)
+	c.Run("C09.sequence", args, "C09.sequence", "C09.prop.reuse_transparent", desc)
 }
 
 // ---------------------------------------------------------------------------------------------
@@ -603,14 +619,14 @@ func c09RunReused(steps []c09Step, pool []gmsl.PDU, roomID spec.RoomID) []string
 }
 
 func init() {
-	// [ver; steps JSON; pool event JSON ...] -> "reused verdicts|one-shot verdicts"
+	// [ver; steps JSON; signature tables (model side only); pool event JSON ...] -> "reused verdicts|one-shot verdicts"
 	RegisterImpl("C09.sequence", func(args [][]byte) ([][]byte, []byte) {
 		ver := gmsl.RoomVersion(args[0])
 		var steps []c09Step
 		if err := json.Unmarshal(args[1], &steps); err != nil || len(steps) == 0 {
 			return args, B("badsteps")
 		}
-		pool, err := c09PoolFromArgs(ver, args[2:])
+		pool, err := c09PoolFromArgs(ver, args[3:])
 		if err != nil {
 			return args, B("badpool")
 		}
@@ -734,7 +750,7 @@ func init() {
 	RegisterImpl("C09.needed_proto", func(args [][]byte) ([][]byte, []byte) {
 		pe := &gmsl.ProtoEvent{Type: string(args[0]), SenderID: string(args[1]), Content: spec.RawJSON(args[4])}
 		if string(args[2]) == "1" {
-			pe.StateKey = sp(string(args[3]))
+			pe.StateKey = c09sp(string(args[3]))
 		}
 		n, err := gmsl.StateNeededForProtoEvent(pe)
 		if err != nil {
@@ -751,7 +767,7 @@ func init() {
 		}
 		pe := &gmsl.ProtoEvent{RoomID: string(args[1]), Type: string(args[2]), SenderID: string(args[3]), Content: spec.RawJSON(args[6])}
 		if string(args[4]) == "1" {
-			pe.StateKey = sp(string(args[5]))
+			pe.StateKey = c09sp(string(args[5]))
 		}
 		eb := gmsl.MustGetRoomVersion(ver).NewEventBuilderFromProtoEvent(pe)
 		prov, err := gmsl.NewAuthEvents(pool)
@@ -865,7 +881,7 @@ func c09MemberContent(c *Ctx, mv, tv, vv, sender string, variantKeys bool) strin
 
 func genC09Needed(c *Ctx, vers []gmsl.RoomVersion) {
 	senders := []string{uAlice, uBob, "", "zed"}
-	sks := []*string{nil, sp(""), sp(uBob), sp(uAlice), sp("zzz"), sp("!aaa")}
+	sks := []*string{nil, c09sp(""), c09sp(uBob), c09sp(uAlice), c09sp("zzz"), c09sp("!aaa")}
 	types := []string{spec.MRoomCreate, "m.room.aliases", spec.MRoomMember, spec.MRoomPowerLevels, spec.MRoomJoinRules, "m.room.redaction",
 		"m.room.message", spec.MRoomThirdPartyInvite, "", "M.ROOM.MEMBER", "m.room.member ", "org.example.custom", "m.room.topic"}
 	other := []string{`{}`, `null`, `5`, `"s"`, `[]`, `true`, `{"membership":"join"}`, `{"membership":"join","join_authorised_via_users_server":"@carol:c","third_party_invite":{"signed":{"token":"t"}}}`}
